@@ -597,6 +597,22 @@ def run(tier, seed, replay):
                 for x_, y_ in ((A_._dims, B_._dims), (A_._dims[0], B_._dims[0]), (k_._dims, ket[ra]._dims)):
                     if (x_ != y_) == (x_ == y_):
                         rep.violation(core.Violation("C02:ne-not-negation-of-eq", f"labels {x_} and {y_} (representations {ra}, {rb}): == gives {x_ == y_} and != gives {x_ != y_}", {"sub": sub, "reps": [ra, rb]}))
+    # integer-valued floats are accepted as dimensions: the labels they produce are the integer labels, for this object and for
+    # every object made afterwards (spaces are interned)
+    try:
+        nf = int(rng.choice([23, 29, 31]))
+        qf = qutip.Qobj(np.eye(2 * nf), dims=[[float(nf), 2.0], [float(nf), 2.0]])
+        later = qutip.destroy(nf)
+        rep.evaluations += 1
+        rep.count("float-dims")
+        flat_ = [x for obj_ in (qf, later) for side in obj_.dims for x in side]
+        if not all(type(x) is int for x in flat_) or qf.dims != [[nf, 2], [nf, 2]] or later.dims != [[nf], [nf]]:
+            rep.violation(core.Violation("C02:float-dims", f"after Qobj(..., dims=[[{float(nf)}, 2.0], [{float(nf)}, 2.0]]) the labels are {qf.dims} and destroy({nf}).dims is {later.dims} with entry types {sorted({type(x).__name__ for x in flat_})}", {"n": nf}))
+        else:
+            qutip.tensor(later, qutip.qeye(2)).ptrace(0)
+            qutip.basis(nf, 1).dag() * later * qutip.basis(nf, 2)
+    except Exception as e:
+        rep.violation(core.Violation("C02:float-dims-raises", f"objects made after a Qobj with integer-valued float dims: {type(e).__name__}: {e}"[:240], {}))
     # matrix elements and overlaps follow the same rule as the products they stand for: <l|A|r> exists when bra * A * ket
     # does, <a|b> when bra * ket does
     for dl, dop, dr in (([2, 3], [[2, 3], [2, 3]], [2, 3]), ([6], [[6], [6]], [6]), ([6], [[2, 3], [2, 3]], [2, 3]), ([3, 2], [[2, 3], [2, 3]], [2, 3]), ([2, 3], [[6], [6]], [3, 2]),
